@@ -42,6 +42,16 @@ Clauses:
                                [-1,1], k >= 3: every candidate of the first mode is kept, the partial product at
                                the root is exactly 0 and the next step raises ValueError('Coefficient array is empty')
 
+  C15.input_form.tt            input FORMS: optima_tt_beam / optima_tt_max / optima_tt on tensors with float32 / int64 / int32 / mixed-
+                               dtype cores, Fortran order, non-contiguous views, read-only arrays, tuple of cores (gen.tt_form), k as
+                               np.int64 / np.int32 / 0-d array, keyword / positional calls; reference: float64 image of what is passed
+                               (float32 cores: float32 tolerance - the library computes in the dtype of the cores); integer cores give
+                               exactly the answers of their float copy (the shift by the constant tensor in optima_tt)
+  C15.input_form.qtt           the same for optima_qtt with k / e / r as NumPy numbers (r also float / np.float32), positional (Y, k, e, r)
+  C15.input_form.func          optima_func_tt_beam on float32 / Fortran / view / read-only / tuple coefficient tensors, k / k_loc as NumPy
+                               integers, positional (A, k, k_loc, ret_all)
+  C15.optima_func.rank1.integer_cores  POSSIBLE DEFECT: coefficient cores of integer dtype -> UFuncTypeError (`G[:, 0, :] *= sqrt(2)` on the copy)
+
 Parameter coverage (audit): k (1 .. N+3, default-like 100), l2r, ret_all, to_orth, p; optima_qtt e (1e-14 .. 0.9) and r
 (int / float, binding 1, 2 and non-binding); optima_func_tt_beam k, k_loc (1, 2, 5), ret_all; every clause family also
 runs on exact re-scalings 2^mag of the tensor (mag = +-27, +-332, +-664; half of that for optima_tt, which squares the
@@ -61,7 +71,8 @@ BOUNDS = ('d = 2..4, n_k in 1..4 (5 thorough), ranks 1..4, kinds gauss / int / t
           'd = 10 (12) full beam; d = 20 / 70 (64, 200, 500 thorough) ranks 1..3 without dense reference, scale 2^+-600; '
           'qtt: d <= 3, q <= 3 dense, e in {1e-14 .. 0.9}, r cap in {1, 2, 16., 64, 100, 1e12}, QTT-rank-1 tensors with q <= 10; '
           'functional: d = 2..6 (8), n_k in 1..6, k in {1, 2, 3, 10}, k_loc in {1, 2, 5}, coefficient scale 2^+-27, 2^+-100, '
-          'plain and redundant storage')
+          'plain and redundant storage; input forms: 12 core forms (float32, int64, int32, mixed, F, view, read-only, tuple, combinations) x '
+          '4 k forms x kw / positional on 4 (7) shapes, optima_qtt 6 number forms for (k, e, r), functional variant 6 + 3 forms')
 
 EPS = np.finfo(float).eps
 EXACT = ('int', 'ties', 'signs', 'const', 'zero')
@@ -634,6 +645,195 @@ def optima_func_rank1_constant_mode(n, mode, seed, k):
     return FAIL(msg) if msg else PASS
 
 
+# ------------------------------------------------------------------ input FORMS (dtype / layout / container / NumPy numbers / call form)
+
+EPS32 = float(np.finfo(np.float32).eps)
+TT_FORMS = ('f32', 'i64', 'i32', 'imixed', 'mixed', 'F', 'V', 'ro', 'tuple', 'F+ro', 'f32+F', 'i64+V+tuple')
+
+
+def _form_eps(form):
+    """/tmp/base computes in the dtype of the cores: float32 cores -> float32 arithmetic (orthogonalize, get)."""
+    return EPS32 if 'f32' in form.split('+') else EPS
+
+
+def _form_tol(Yi, eps):
+    return 256. * eps * len(Yi) * max(max(G.shape[0], G.shape[2]) for G in Yi) * float(gen.absdense(Yi).max())
+
+
+def _form_entry_ok(y, D, A, i, eps):
+    i = tuple(int(x) for x in np.asarray(i))
+    return gen.close(float(y), D[i], A[i] + 1e-300, c=64. * eps / EPS)
+
+
+@clause('C15.input_form.tt', funcs=('optima.optima_tt_beam', 'optima.optima_tt_max', 'optima.optima_tt'))
+def input_form_tt(shape, r, kind, seed, form, kform, full, call='kw'):
+    """optima_tt_beam / optima_tt_max / optima_tt on the SAME tensor passed in another input form (gen.tt_form: float32 /
+    int64 / int32 / mixed dtypes, Fortran order, non-contiguous views, read-only arrays, tuple of cores), k as Python int /
+    np.int64 / np.int32 / 0-d array (gen.num_form), optional arguments by keyword or positionally in the documented order.
+    Reference: dense float64 image of what is passed.  Valid indices, reported values = entries, y_min <= y_max; full beam
+    (k >= number of elements): the exact max-modulus entry, and (exact kinds) the exact minimum and maximum of optima_tt -
+    integer cores must give the same answers as their float copy (optima_tt shifts the tensor by a constant tensor); ret_all
+    rows valid; the argument is left unchanged."""
+    Y0 = _tt(shape, r, kind, seed)
+    Z, Yi = gen.tt_form(Y0, form)
+    D, A = gen.dense(Yi), gen.absdense(Yi)
+    eps = _form_eps(form)
+    exact = kind in EXACT
+    N = D.size
+    k0 = N + 2 if full else max(1, min(2, N - 1))
+    k = gen.num_form(k0, kform)
+    snap = gen.snapshot(list(Z))
+    m = np.abs(D).max()
+    tol = _form_tol(Yi, eps)
+
+    def is_max(v):
+        return abs(float(v)) == m if exact else abs(float(v)) >= m - tol
+    for l2r in (True, False):
+        if call == 'pos':
+            i = teneva.optima_tt_beam(Z, k, l2r)
+            I = teneva.optima_tt_beam(Z, k, l2r, True)
+        else:
+            i = teneva.optima_tt_beam(Z, k=k, l2r=l2r)
+            I = teneva.optima_tt_beam(Z, k=k, l2r=l2r, ret_all=True)
+        msg = _index_ok(i, shape)
+        if msg:
+            return FAIL(f'beam l2r={l2r}: {msg}')
+        if I.ndim != 2 or I.shape[1] != len(shape) or not 1 <= I.shape[0] <= k0 or not np.array_equal(I[0], i):
+            return FAIL(f'beam l2r={l2r}: ret_all shape {I.shape} / first row {I[0].tolist()} vs {i.tolist()} (k={k0})')
+        for row in I:
+            msg = _index_ok(row, shape)
+            if msg:
+                return FAIL(f'beam l2r={l2r}, ret_all: {msg}')
+        if full:
+            if not is_max(D[tuple(i)]):
+                return FAIL(f'beam l2r={l2r}: |D[{i.tolist()}]| = {abs(D[tuple(i)])!r} < max |D| = {m!r}')
+            if I.shape[0] != N or len({tuple(row) for row in I.tolist()}) != N:
+                return FAIL(f'beam l2r={l2r}: full beam holds {I.shape[0]} rows, expected {N} distinct ones')
+    i, y = teneva.optima_tt_max(Z, k) if call == 'pos' else teneva.optima_tt_max(Z, k=k)
+    msg = _index_ok(i, shape)
+    if msg:
+        return FAIL('optima_tt_max: ' + msg)
+    if not _form_entry_ok(y, D, A, i, eps):
+        return FAIL(f'optima_tt_max: y = {y!r} != D[{i.tolist()}] = {D[tuple(i)]!r}')
+    if full and not is_max(y):
+        return FAIL(f'optima_tt_max: |y| = {abs(float(y))!r} < max |D| = {m!r}')
+    res = teneva.optima_tt(Z, k) if call == 'pos' else teneva.optima_tt(Z, k=k)
+    i_min, y_min, i_max, y_max = res
+    for nm, i, y in (('min', i_min, y_min), ('max', i_max, y_max)):
+        msg = _index_ok(i, shape)
+        if msg:
+            return FAIL(f'optima_tt i_{nm}: {msg}')
+        if not _form_entry_ok(y, D, A, i, eps):
+            return FAIL(f'optima_tt: y_{nm} = {y!r} != D[{np.asarray(i).tolist()}] = {D[tuple(np.asarray(i))]!r}')
+    if not y_min <= y_max:
+        return FAIL(f'optima_tt: y_min = {y_min!r} > y_max = {y_max!r}')
+    if full:
+        if exact:
+            if float(y_min) != D.min() or float(y_max) != D.max():
+                return FAIL(f'optima_tt: (y_min, y_max) = ({y_min!r}, {y_max!r}) != true ({D.min()!r}, {D.max()!r})')
+        elif not is_max(y_max if abs(float(y_max)) >= abs(float(y_min)) else y_min):
+            return FAIL(f'optima_tt: max(|y_min|, |y_max|) < max |D| = {m!r}')
+    if gen.snapshot(list(Z)) != snap:
+        return FAIL('the argument was changed')
+    return PASS
+
+
+@clause('C15.input_form.qtt', funcs=('optima.optima_qtt', 'act_one.tt_to_qtt', 'grid.ind_qtt_to_tt'))
+def input_form_qtt(d, q, r, kind, seed, form, nform, full, cap, call='kw'):
+    """optima_qtt on [2^q]^d with the tensor in another input form and k / e / r as NumPy numbers (np.int64 / np.int32 /
+    np.float64 / np.float32 / 0-d arrays), keyword or positional (Y, k, e, r) call.  cap = 0: non-binding e = 1e-13, r = 64;
+    cap > 0: binding rank cap (structure only: valid indices, values = entries, ordered).  Full beam and no binding cap:
+    exact minimum and maximum (exact kinds; Gaussian: the max-modulus entry within the float tolerance)."""
+    shape = [2 ** q] * d
+    Y0 = _tt(shape, r, kind, seed)
+    if any(not np.any(G) for G in Y0):
+        return SKIP('exactly-zero core')
+    Z, Yi = gen.tt_form(Y0, form)
+    D, A = gen.dense(Yi), gen.absdense(Yi)
+    eps = _form_eps(form)
+    N = D.size
+    k0 = N + 1 if full else 3
+    e0, r0 = (1e-13, 64) if not cap else (1e-13, int(cap))
+    if nform == 'rfloat':                       # r is documented as (int, float)
+        k, e, rr = k0, e0, float(r0)
+    elif nform == 'np32':
+        k, e, rr = np.int32(k0), np.float32(e0), np.int32(r0)
+    elif nform == 'rf32':
+        k, e, rr = np.int64(k0), np.float64(e0), np.float32(r0)
+    else:
+        k, e, rr = gen.num_form(k0, nform), gen.num_form(e0, nform), gen.num_form(r0, nform)
+    snap = gen.snapshot(list(Z))
+    res = teneva.optima_qtt(Z, k, e, rr) if call == 'pos' else teneva.optima_qtt(Z, k=k, e=e, r=rr)
+    if gen.snapshot(list(Z)) != snap:
+        return FAIL('optima_qtt changed its argument')
+    i_min, y_min, i_max, y_max = res
+    for nm, i, y in (('min', i_min, y_min), ('max', i_max, y_max)):
+        msg = _index_ok(i, shape)
+        if msg:
+            return FAIL(f'i_{nm}: {msg}')
+        if not _form_entry_ok(y, D, A, i, eps):
+            return FAIL(f'y_{nm} = {y!r} != D[{np.asarray(i).tolist()}] = {D[tuple(np.asarray(i))]!r}')
+    if not y_min <= y_max:
+        return FAIL(f'y_min = {y_min!r} > y_max = {y_max!r}')
+    if full and not cap:
+        if kind in EXACT:
+            if float(y_min) != D.min() or float(y_max) != D.max():
+                return FAIL(f'(y_min, y_max) = ({y_min!r}, {y_max!r}) != true ({D.min()!r}, {D.max()!r})')
+        else:
+            top = max(abs(float(y_min)), abs(float(y_max)))
+            if not top >= np.abs(D).max() - (1e-9 * np.linalg.norm(D) + _form_tol(Yi, eps)):
+                return FAIL(f'max(|y_min|, |y_max|) = {top!r} < max |D| = {np.abs(D).max()!r}')
+    return PASS
+
+
+def _func_form(A, form):
+    Z, Ai = gen.tt_form(A, form)
+    return Z, [G.reshape(-1) for G in Ai]
+
+
+@clause('C15.input_form.func', funcs=('optima_func.optima_func_tt_beam',))
+def input_form_func(n, seed, fam, k, form, kform, call='kw'):
+    """optima_func_tt_beam on a rank-1 coefficient tensor in another input form (float32 / Fortran order / views / read-only /
+    tuple of cores), k and k_loc as NumPy integers, keyword or positional (A, k, k_loc, ret_all) call: the point lies in the
+    cube and maximises |interpolant| of the float64 image of the coefficients (relative tolerance 1e-6 as in
+    C15.optima_func.rank1); ret_all rows inside the cube, row 0 = the answer; the argument is left unchanged."""
+    if k > 1 and fam != 'dominant':
+        return SKIP('k > 1 with roots inside the cube')
+    cs = _func_coefs(n, seed, 'int', fam)
+    Z, csi = _func_form(_func_tt(cs), form)
+    snap = gen.snapshot(list(Z))
+    kk, kl = gen.num_form(int(k), kform), gen.num_form(2, kform)
+    if call == 'pos':
+        x = teneva.optima_func_tt_beam(Z, kk, kl, False)
+        X = teneva.optima_func_tt_beam(Z, kk, kl, True)
+    else:
+        x = teneva.optima_func_tt_beam(Z, k=kk, k_loc=kl)
+        X = teneva.optima_func_tt_beam(Z, k=kk, k_loc=kl, ret_all=True)
+    msg = _func_check(x, csi)
+    if msg:
+        return FAIL(msg)
+    if X.ndim != 2 or X.shape[1] != len(n) or not 1 <= X.shape[0] <= k or not np.array_equal(X[0], x) \
+            or not np.all(np.abs(X) <= 1.):
+        return FAIL(f'ret_all: shape {X.shape}, first row {X[0].tolist()} vs {x.tolist()}')
+    if gen.snapshot(list(Z)) != snap:
+        return FAIL('optima_func_tt_beam changed its argument')
+    return PASS
+
+
+@clause('C15.optima_func.rank1.integer_cores', funcs=('optima_func.optima_func_tt_beam',))
+def optima_func_rank1_integer_cores(n, seed, fam, k, form):
+    """POSSIBLE DEFECT: the rank-1 coefficient tensor stored in cores of INTEGER dtype (e.g. np.array([1, -2, 3]).reshape(1, -1, 1)):
+    the routine returns a maximiser of |interpolant| in the cube, like for the float copy of the same cores.  (On the pinned
+    tree: `G[:, 0, :] *= np.sqrt(2.)` on the copied integer cores -> UFuncTypeError.)"""
+    if k > 1 and fam != 'dominant':
+        return SKIP('k > 1 with roots inside the cube')
+    cs = _func_coefs(n, seed, 'int', fam)
+    Z, csi = _func_form(_func_tt(cs), form)
+    x = teneva.optima_func_tt_beam(Z, k=k)
+    msg = _func_check(x, csi)
+    return FAIL(msg) if msg else PASS
+
+
 # ------------------------------------------------------------------ case list
 
 def cases(tier, seed):
@@ -732,6 +932,45 @@ def cases(tier, seed):
     # DOUBTFUL (disabled): optima_tt_beam(to_orth=False) multiplies the boundary core of the CALLER's tensor by 2^(p/d)
     # in place (the undocumented parameters to_orth / p; `Q *= 2**p0` on a reshape view of Y[0] / Y[-1]).
     # yield 'C15.beam.no_orth', dict(shape=[3, 4], r=2, kind='gauss', seed=1, k=100, p=None, untouched=True)
+    # ---- input FORMS (f4-forms): the same reference checks on tensors / numbers passed in another form
+    fshp = [([3, 4], 2), ([2, 3, 2], 3), ([3, 2, 2, 2], 2), ([4, 1, 3], 1)] + ([([2, 2], 1), ([5, 5], 4), ([2, 3, 2, 2], 3)] if big else [])
+    kfs = ('py', 'np64', 'np32', '0d')
+    j = 0
+    for (shape, r) in fshp:
+        for form in TT_FORMS:
+            ints = form.split('+')[0] in ('i64', 'i32', 'imixed')
+            for kind in (('int', 'signs', 'ties') if ints else ('int', 'signs', 'gauss')):
+                for full in (True, False):
+                    if not big and not full and (j % 3):
+                        j += 1
+                        continue
+                    j += 1
+                    yield 'C15.input_form.tt', dict(shape=shape, r=r, kind=kind, seed=1 + j % 3, form=form, kform=kfs[j % 4], full=full,
+                                                    call=('kw', 'pos')[j % 2])
+    for sd in range(1, 13 if big else 7):            # integer cores, all entries of one sign, d = 3, 4: the shift by the constant tensor
+        for form in ('i64', 'i32', 'imixed'):
+            yield 'C15.input_form.tt', dict(shape=[[2, 3, 2], [2, 2, 2, 2], [3, 2, 2, 2]][sd % 3], r=1 + sd % 3, kind='signs', seed=sd, form=form,
+                                            kform='np64', full=True, call='pos')
+    j = 0
+    for (d, q) in ((2, 2), (2, 3)) + (((3, 2), (2, 1)) if big else ()):
+        for form in TT_FORMS:
+            ints = form.split('+')[0] in ('i64', 'i32', 'imixed')
+            for kind in (('int', 'ties') if ints else ('int', 'gauss')):
+                for nform in ('py', 'np64', 'np32', '0d', 'rfloat', 'rf32'):
+                    j += 1
+                    if not big and j % 3:
+                        continue
+                    yield 'C15.input_form.qtt', dict(d=d, q=q, r=3, kind=kind, seed=1 + j % 2, form=form, nform=nform, full=bool(j % 4),
+                                                     cap=(0, 0, 2, 1)[(j // 3) % 4], call=('kw', 'pos')[(j // 3) % 2])
+    j = 0
+    for n in ([3, 3], [2, 5], [3, 4, 2]) + (([5, 3, 4], [2, 2, 2, 2]) if big else ()):
+        for form in ('f32', 'F', 'V', 'ro', 'tuple', 'f32+F+tuple'):
+            for (fam, k) in (('free', 1), ('dominant', 1), ('dominant', 3)):
+                j += 1
+                yield 'C15.input_form.func', dict(n=n, seed=1 + j % 3, fam=fam, k=k, form=form, kform=kfs[j % 3], call=('kw', 'pos')[j % 2])
+        for form in (('i64', 'i32', 'imixed') if big else ('i64', 'imixed')[:1 + (len(n) == 3)]):     # fails on the pinned tree (possible defect)
+            for (fam, k) in (('free', 1), ('dominant', 3)):
+                yield 'C15.optima_func.rank1.integer_cores', dict(n=n, seed=1, fam=fam, k=k, form=form)
     # many modes: d >= 63 (element count beyond int64), no dense reference
     for d in ((20, 64, 70, 200, 500) if big else (20, 70)):
         for n in ((2, 3, [2, 3, 1]) if big else (2, [2, 3, 1])):
